@@ -2009,6 +2009,65 @@ def rule_queue(ctx):
     prog = ctx.prog
     Q = "ebr_impl::sync::queue::Queue::<T>::"
     n = 0
+    # both ends only ever move forward, and only from the value the mover observed: after construction `head` and `tail`
+    # are written by compare_exchange alone (a plain store by a delayed pusher puts `tail` back onto a node that may have
+    # been popped, retired and freed), and the tail is swung from a node to that node's successor (or the node just linked
+    # after it)
+    nends = 0
+    for name, b0 in sorted(prog.bodies.items()):
+        if not b0.file().endswith("sync/queue.rs") or b0.kind == "closure" or name == Q + "new" or "::test" in name or \
+                name.endswith("as std::ops::Drop>::drop"):
+            continue
+        if name in prog.auto_inline():
+            continue      # a helper a refactoring split off: read inlined where it is called, with its real arguments
+        if not any(norm(c.target or "").startswith("ebr_impl::pointers::RawAtomic::") or (c.target in prog.auto_inline())
+                   for (_, _, c) in b0.calls()):
+            continue
+        for p in ctx.ex.paths(b0):
+            for i, e in enumerate(p.events):
+                if e.kind != "call" or not norm(e.target or "").startswith("ebr_impl::pointers::RawAtomic::") or not e.args:
+                    continue
+                fld = outer_field(e.args[0])
+                if fld not in ("Queue.head", "Queue.tail"):
+                    continue
+                op = norm(e.target).split("::")[-1]
+                if op == "load":
+                    continue
+                nends += 1
+                if op not in ("compare_exchange", "compare_exchange_weak"):
+                    r.instance("%s: %s written by %s" % (name.split("::")[-1], fld, op), False)
+                    r.violate(name, "end-write:" + fld, "`%s` is written with a plain %s: the ends of the queue move only by a "
+                              "compare_exchange from the value the mover observed - a delayed thread's store puts the end "
+                              "back onto a node that may already be popped, retired and freed" % (fld, op), e.loc())
+                    continue
+                if fld == "Queue.tail":
+                    cur, new_ = strip(e.args[1]), strip(e.args[2])
+                    # (the popper swings the tail from `tail` on a path that knows head.ptr_eq(tail), to head's successor)
+                    same = [cur]
+                    for q in p.events[:i]:
+                        if q.kind == "cond" and q.value == 1 and isinstance(q.term, tuple) and q.term[0] == "call" and \
+                                norm(q.term[1]) == "ebr_impl::pointers::RawShared::ptr_eq":
+                            a_, b_ = strip(q.term[2][0]), strip(q.term[2][1])
+                            if a_ == cur:
+                                same.append(b_)
+                            if b_ == cur:
+                                same.append(a_)
+                    # new is load(cur.next), or the node a successful CAS on cur.next has just linked
+                    succ = any(x[0] == "call" and norm(x[1]) == "ebr_impl::pointers::RawAtomic::load" and
+                               outer_field(x[2][0]) == "Node.next" and any(c_ in list(subterms(x[2][0])) for c_ in same)
+                               for x in [new_] + list(subterms(new_)))
+                    linked = any(q.kind == "call" and norm(q.target or "") in ("ebr_impl::pointers::RawAtomic::compare_exchange",
+                                                                              "ebr_impl::pointers::RawAtomic::compare_exchange_weak")
+                                 and outer_field(q.args[0]) == "Node.next" and cur in list(subterms(q.args[0])) and
+                                 strip(q.args[2]) == new_ and ctx.cas_outcome(p, q.result, j) == "ok"
+                                 for j, q in enumerate(p.events[:i]))
+                    okt = succ or linked
+                    r.instance("%s: tail swung from a node to its successor" % name.split("::")[-1], okt)
+                    if not okt:
+                        r.violate(name, "tail-swing", "the tail is not swung from the observed node to that node's successor "
+                                  "(its loaded `next`, or the node just linked after it)", e.loc())
+    if nends < 3 and not r.violations:
+        r.floor_failures.append("EBR-QUEUE: found %d writes of the queue's ends, expected at least 3 (anchor lost?)" % nends)
     exq = Exec(prog, inline={Q + "pop_internal", Q + "pop_if_internal", Q + "push_internal"})
     for fname, need_pred in ((Q + "pop_if_internal", True), (Q + "pop_internal", False)):
         b = prog.body(fname)
@@ -2064,6 +2123,24 @@ def rule_queue(ctx):
                 if not ok:
                     r.violate(fname, "ok-arm", "on CAS success the element must be read once and the old head retired once",
                               ce.loc())
+                elif retire:
+                    # the old head is not retired while the tail may still point at it: after the head CAS the tail is
+                    # loaded and compared with the old head; where they are equal the tail is swung first
+                    ri = retire[0][0]
+                    hd = head_l[-1][1].result
+                    tl = [l for l in loads if outer_field(l[1].args[0]) == "Queue.tail" and ci < l[0] < ri]
+                    cmp_ = [q for q in p.events[ci:ri] if q.kind == "cond" and isinstance(q.term, tuple) and q.term[0] == "call"
+                            and norm(q.term[1]) == "ebr_impl::pointers::RawShared::ptr_eq" and tl and
+                            {strip(q.term[2][0]), strip(q.term[2][1])} == {hd, tl[-1][1].result}]
+                    okt = bool(tl) and bool(cmp_)
+                    if okt and cmp_[0].value == 1:
+                        okt = any(q.kind == "call" and norm(q.target or "").startswith("ebr_impl::pointers::RawAtomic::compare_exchange")
+                                  and outer_field(q.args[0]) == "Queue.tail" for q in p.events[ci:ri])
+                    r.instance("%s: the tail is moved off the old head before it is retired" % fname.split("::")[-1], okt)
+                    if not okt:
+                        r.violate(fname, "retires-tail", "the old head is retired without making sure the tail does not point at "
+                                  "it (load tail after the head CAS, compare, swing it where equal): a pusher that loads the tail "
+                                  "is handed a node that is freed three epochs later", retire[0][1].loc())
             elif out == "err":
                 ok = not reads and not retire
                 r.instance("%s: CAS failed -> nothing read or retired" % fname.split("::")[-1], ok)
